@@ -40,6 +40,10 @@ def cells(ctx: Ctx, deeper: bool) -> List[Dict[str, Any]]:
                 lb = {"ilit": "2", "flit": "0.5", "icount": lb, "imeth": lb, "fmeth": lb, "dmeth": "j.eta()", "bmeth": lb, "bcmp": lb}[b]
             expr = f"({la} {op} {lb})"
             C.append({"id": f"bin{op}:{a}:{b}", "expr": expr, "family": "mod" if op == "%" else "binop", "kinds": (a, b), "op": op})
+            if op == "**" and b in INTK and a in INTK:
+                # integer base with an exponent that is negative at run time: Python yields a fraction
+                C.append({"id": f"bin**:{a}:{b}:negexp", "expr": f"(({la} + 1) ** ({pick(b)} - 4))", "family": "binop", "kinds": (a, b), "op": op})
+                C.append({"id": f"bin**:{a}:{b}:neglit", "expr": f"(({la} + 2) ** -1)", "family": "binop", "kinds": (a, b), "op": op})
             if deeper:
                 c = pick(R.choice(list(KINDS)))
                 C.append({"id": f"bin{op}:{a}:{b}:deep", "expr": f"(({la} {op} {lb}) {R.choice(['+', '*', '-'])} {c})", "family": "mod" if op == "%" else "binop", "kinds": (a, b), "op": op})
@@ -58,8 +62,10 @@ def cells(ctx: Ctx, deeper: bool) -> List[Dict[str, Any]]:
             C.append({"id": f"Max:{sk}", "expr": f"{se}.Max()", "family": "minmax", "kinds": (sk,), "op": "Max"})
             C.append({"id": f"Min:{sk}", "expr": f"{se}.Min()", "family": "minmax", "kinds": (sk,), "op": "Min"})
         for seedk, seed in (("ilit", "0"), ("ilit1", "1"), ("flit", "0.5"), ("dmeth", "j.eta()"), ("imeth", "j.nTrk()")):
-            for bk, body in (("add", "a + x"), ("mul2", "a + x * 2"), ("half", "a + x / 2"), ("swap", "x + a")):
-                C.append({"id": f"Agg:{sk}:{seedk}:{bk}", "expr": f"{se}.Aggregate({seed}, lambda a, x: {body})", "family": "agg", "kinds": (sk, seedk), "op": "Aggregate"})
+            for bk, body in (("add", "a + x"), ("mul2", "a + x * 2"), ("half", "a + x / 2"), ("swap", "x + a"), ("cond_on_acc", "(a if a > 1 else 1) + x"),
+                             ("cond_on_elem", "a + (x if x > 2 else 0)"), ("running_max", "a if a > x else x"), ("cond_int_arms_then_float", "(a if a > 0 else 0) + x / 4")):
+                C.append({"id": f"Agg:{sk}:{seedk}:{bk}", "expr": f"{se}.Aggregate({seed}, lambda a, x: {body})", "family": "agg", "kinds": (sk, seedk), "op": "Aggregate",
+                          "floating_ok": " if " in body})
     for a, b in itertools.product(KINDS, KINDS):
         C.append({"id": f"if:{a}:{b}", "expr": f"({pick(a)} if j.pt() > 30.0 else {pick(b)})", "family": "cond", "kinds": (a, b), "op": "ifexp"})
     return C
@@ -184,12 +190,12 @@ def check_batch(ctx: Ctx, backend: str, case: diff.Case, r: Dict[str, Any], fail
         ks = {kind_of(x) for x in vals}
         tc = type_class(branches[ci]["type"]) if ci < len(branches) else "missing"
         bad = None
-        if ks == {"bool"} and tc != "bool" and cell["family"] != "cond":
+        if ks == {"bool"} and tc != "bool" and cell["family"] != "cond" and not cell.get("floating_ok"):
             bad = f"Python result is bool, column type is {branches[ci]['type']}"
         elif cell["family"] == "cond" or cell.get("op") == "**":
             # C03: "real division and conditionals are floating"; C13: "'**' is a real power" - any numeric column type carries the value
             bad = None if tc in ("int", "float", "bool") else f"column type is {branches[ci]['type']}"
-        elif ks == {"int"} and tc != "int" and cell["family"] not in ("cond", "minmax"):
+        elif ks == {"int"} and tc != "int" and cell["family"] not in ("cond", "minmax") and not cell.get("floating_ok"):
             bad = f"Python result is int, column type is {branches[ci]['type']} (integer-valued results must remain integers)"
         elif "float" in ks and tc != "float":
             bad = f"Python result is float, column type is {branches[ci]['type']}"
